@@ -60,6 +60,33 @@ pub enum NonConstantValueInner<TLocation> {
 
 pub type NonConstantValue = NonConstantValueInner<EmbeddedLocation>;
 
+impl NonConstantValue {
+    /// The same value with every nested source location replaced by the generated location.
+    /// Values in merged selection maps are compared (and used as map keys), and where a
+    /// literal was written must not make two occurrences of it different.
+    pub fn without_locations(&self) -> NonConstantValue {
+        let generated = EmbeddedLocation::todo_generated();
+        match self {
+            NonConstantValueInner::List(items) => NonConstantValueInner::List(
+                items
+                    .iter()
+                    .map(|item| item.item.without_locations().with_location(generated))
+                    .collect(),
+            ),
+            NonConstantValueInner::Object(pairs) => NonConstantValueInner::Object(
+                pairs
+                    .iter()
+                    .map(|pair| NameValuePair {
+                        name: pair.name.item.with_location(generated),
+                        value: pair.value.item.without_locations().with_location(generated),
+                    })
+                    .collect(),
+            ),
+            other => other.clone(),
+        }
+    }
+}
+
 impl<TLocation> NonConstantValueInner<TLocation> {
     pub fn to_alias_str_chunk(&self) -> String {
         match self {
